@@ -16,6 +16,7 @@ pub fn classes(prop: &str) -> &'static [&'static str] {
             "remove-not-clean",
             "remove-noop-riff",
             "remove-not-accepted",
+            "remove-leaves-update-box-bmff",
             "container-inconsistent",
         ],
         "C08" => &[
@@ -44,7 +45,12 @@ pub fn classes(prop: &str) -> &'static [&'static str] {
             "offset-broken",
             "offset-broken-data-before-box",
             "offset-broken-iloc",
+            "offset-broken-tfhd",
+            "offset-broken-tfra",
+            "offset-broken-saio",
             "offset-underflow",
+            "media-unparsable-output",
+            "adjust-touches-other-bytes",
         ],
         "C12" => &[
             "panic",
@@ -84,6 +90,8 @@ impl Ctx<'_> {
             class
         };
         let base = class.strip_suffix("-tiff-legacy-first-ifd").unwrap_or(class);
+        // BMFF update-manifest layouts report under their own keys (`update-<class>`)
+        let base = base.strip_prefix("update-trailing-box-").or_else(|| base.strip_prefix("update-")).unwrap_or(base);
         if classes(self.prop).contains(&base) || classes(self.prop).contains(&class) {
             self.run.fail(self.idx, class, detail);
         }
@@ -216,14 +224,26 @@ pub fn check_locations(cx: &mut Ctx, asset: &Asset, bytes: &[u8], what: &str, st
 
 /// Box-map well-formedness (C12).
 pub fn check_box_map(cx: &mut Ctx, asset: &Asset, bytes: &[u8], what: &str) {
+    // structurally mutated input: an error is a correct answer; an Ok answer must still be
+    // ordered, non-overlapping and inside the file (coverage is not defined for a broken file)
+    let mutated = asset.desc.contains("MUTATED");
     let bm = match op_box_map(asset.fmt, bytes) {
         None => return,
         Some(Ok(v)) => v,
         Some(Err(e)) => {
-            cx.fail(if is_panic(&e) { "panic" } else { "boxmap-error" }, format!("{what}: get_box_map fails: {e}"));
+            if is_panic(&e) {
+                cx.fail("panic", format!("{what}: get_box_map panics: {e}"));
+            } else if mutated {
+                cx.run.count(&format!("mutated_boxmap_err_{}", asset.fmt));
+            } else {
+                cx.fail("boxmap-error", format!("{what}: get_box_map fails: {e}"));
+            }
             return;
         }
     };
+    if mutated {
+        cx.run.count(&format!("mutated_boxmap_ok_{}", asset.fmt));
+    }
     let n = bytes.len() as u64;
     let mut prev_end = 0u64;
     let mut cov = vec![0u8; bytes.len()]; // 1 = ordinary box, 2 = C2PA box
@@ -245,6 +265,9 @@ pub fn check_box_map(cx: &mut Ctx, asset: &Asset, bytes: &[u8], what: &str) {
         }
         prev_end = prev_end.max(b.start + b.len);
     }
+    if mutated {
+        return;
+    }
     let items = lex(asset.family, bytes);
     // coverage: every byte is in a box; manifest bytes exactly in the C2PA box
     let mut is_manifest = vec![false; bytes.len()];
@@ -261,23 +284,24 @@ pub fn check_box_map(cx: &mut Ctx, asset: &Asset, bytes: &[u8], what: &str) {
             }
         }
     }
-    // "covers every byte of the file except the manifest container"
-    let uncovered: Vec<usize> = (0..bytes.len()).filter(|i| cov[*i] == 0 && !is_manifest[*i]).collect();
-    if let (Some(f), Some(l)) = (uncovered.first(), uncovered.last()) {
-        let all_trailing = *f >= trailing_from;
-        let class = if all_trailing {
-            match asset.family {
-                Family::Png => "boxmap-trailing-png",
-                Family::Jpeg => "boxmap-trailing-jpeg",
-                Family::Gif => "boxmap-trailing-gif",
-                _ => "boxmap-gap",
-            }
-        } else if asset.family == Family::Jpeg && asset.desc.contains("app11short") {
-            "boxmap-short-app11"
-        } else {
-            "boxmap-gap"
+    // "covers every byte of the file except the manifest container"; the data after the end
+    // marker and the rest are reported separately (different defects)
+    let uncovered_all: Vec<usize> = (0..bytes.len()).filter(|i| cov[*i] == 0 && !is_manifest[*i]).collect();
+    let (trailing, uncovered): (Vec<usize>, Vec<usize>) = uncovered_all.into_iter().partition(|i| *i >= trailing_from);
+    if let (Some(f), Some(l)) = (trailing.first(), trailing.last()) {
+        let class = match asset.family {
+            Family::Png => "boxmap-trailing-png",
+            Family::Jpeg => "boxmap-trailing-jpeg",
+            Family::Gif => "boxmap-trailing-gif",
+            _ => "boxmap-gap",
         };
-        cx.fail(class, format!("{what}: {} bytes ({}..={}) of the {}-byte file are in no box{}", uncovered.len(), f, l, n, if all_trailing { " (data after the end marker)" } else { "" }));
+        cx.fail(class, format!("{what}: {} bytes ({}..={}) of the {}-byte file are in no box (data after the end marker)", trailing.len(), f, l, n));
+    }
+    if let (Some(f), Some(l)) = (uncovered.first(), uncovered.last()) {
+        // exactly this gap kind: every uncovered byte lies in an APP11 segment whose content is
+        // at most 16 bytes
+        let class = if asset.family == Family::Jpeg && in_short_app11(items.as_deref().unwrap_or(&[]), &uncovered) { "boxmap-short-app11" } else { "boxmap-gap" };
+        cx.fail(class, format!("{what}: {} bytes ({}..={}) of the {}-byte file are in no box", uncovered.len(), f, l, n));
     }
     if items.is_some() {
         let bad = (0..bytes.len()).find(|i| (cov[*i] == 2) != is_manifest[*i] && cov[*i] != 0);
@@ -285,6 +309,12 @@ pub fn check_box_map(cx: &mut Ctx, asset: &Asset, bytes: &[u8], what: &str) {
             cx.fail("boxmap-c2pa-mismatch", format!("{what}: byte {i} is {} the manifest container but {} the C2PA box", if is_manifest[i] { "in" } else { "outside" }, if cov[i] == 2 { "inside" } else { "outside" }));
         }
     }
+}
+
+/// Do all `uncovered` positions lie inside APP11 segments with at most 16 content bytes?
+fn in_short_app11(items: &[Item], uncovered: &[usize]) -> bool {
+    let short: Vec<(usize, usize)> = items.iter().filter(|i| i.tag == "SEB" && i.bytes.len() <= 4 + 16).map(|i| (i.start, i.start + i.bytes.len())).collect();
+    !short.is_empty() && uncovered.iter().all(|u| short.iter().any(|(s, e)| s <= u && u < e))
 }
 
 /// Format-level consistency of an output the handler produced (C07 "still accepted").
@@ -308,6 +338,27 @@ fn check_container(cx: &mut Ctx, asset: &Asset, bytes: &[u8], what: &str) {
             }
         }
     }
+}
+
+/// C09 on one step: the non-manifest items of the independent lexer (bytes, order; boxes
+/// that carry absolute offsets with those fields masked) are unchanged, and every absolute
+/// offset still addresses the same bytes. An output the lexer cannot read while it could read
+/// the input is a failure of its own (the media cannot be shown to be preserved).
+pub fn check_media(cx: &mut Ctx, asset: &Asset, before: &[u8], after: &[u8], what: &str, prefix: &str) {
+    let fam = asset.family;
+    if fam == Family::Sidecar {
+        return;
+    }
+    match (lex(fam, before), lex(fam, after)) {
+        (Some(a), Some(b)) => {
+            if let Some((class, d)) = media_diff(fam, &a, &b) {
+                cx.fail(&format!("{prefix}{class}"), format!("{what}: non-manifest content changed: {d}"));
+            }
+        }
+        (Some(_), None) => cx.fail(&format!("{prefix}media-unparsable-output"), format!("{what}: the independent lexer reads the input but not the output ({} -> {} bytes); media preservation cannot be established", before.len(), after.len())),
+        _ => cx.run.count("media_check_skipped_input_unparsable"),
+    }
+    crate::embed_lex2::check_offsets_prefixed(cx, asset, before, after, what, prefix);
 }
 
 /// Evaluate every oracle on an executed sequence.
@@ -343,14 +394,7 @@ pub fn check_steps(cx: &mut Ctx, asset: &Asset, steps: &[Step]) {
                 }
                 check_container(cx, asset, &st.after, &what);
                 // C09
-                if fam != Family::Sidecar {
-                    if let (Some(a), Some(b)) = (lex(fam, &st.before), &after_items) {
-                        if let Some((class, d)) = media_diff(fam, &a, b) {
-                            cx.fail(class, format!("{what}: non-manifest content changed by write_cai: {d}"));
-                        }
-                    }
-                    crate::embed_lex2::check_offsets(cx, asset, &st.before, &st.after, &what);
-                }
+                check_media(cx, asset, &st.before, &st.after, &format!("{what} (write_cai)"), "");
                 // C08 / C12
                 let region = check_locations(cx, asset, &st.after, &what, Some(&s.bytes));
                 if let Op::Patch(_) = &st.op {
@@ -421,12 +465,7 @@ pub fn check_steps(cx: &mut Ctx, asset: &Asset, steps: &[Step]) {
                     if op_locations(asset.fmt, &st.after).is_err() {
                         cx.fail("remove-not-accepted", format!("{what}: object locations fail on the asset after removal"));
                     }
-                    if let (Some(a), Some(b)) = (lex(fam, &st.before), &after_items) {
-                        if let Some((class, d)) = media_diff(fam, &a, b) {
-                            cx.fail(class, format!("{what}: non-manifest content changed by removal: {d}"));
-                        }
-                    }
-                    crate::embed_lex2::check_offsets(cx, asset, &st.before, &st.after, &what);
+                    check_media(cx, asset, &st.before, &st.after, &format!("{what} (removal)"), "");
                     // remove(write…(a)) = remove(a)
                     if let Some(r0) = &orig_removed {
                         let only_embedding_before = steps[..k].iter().all(|s| matches!(s.op, Op::Write(_) | Op::Patch(_) | Op::Read | Op::Loc | Op::BoxMap) && s.ok);
@@ -548,10 +587,25 @@ pub fn families_for(prop: &str) -> Vec<Family> {
 
 pub fn run_prop(run: &mut Run, rng: &mut Rng, prop: &'static str) {
     let thorough = run.thorough();
-    run.rule = "asset generated per container family (optional XMP, extra chunks/segments/blocks, trailing data, optional pre-existing manifest at a random legal place) × store lengths (family boundary lengths, 1–600, up to 70 000 quick / 200 000 thorough) × the property's op sequences; a case is non-trivial when every write/remove step succeeded on the implementation; distinct by (format, layout, op sequence)".to_string();
+    run.rule = "asset generated per container family (optional XMP, extra chunks/segments/blocks, trailing data, optional pre-existing manifest at a random legal place) × store lengths (family boundary lengths, 1–600, up to 70 000 quick / 200 000 thorough) × the property's op sequences; plus, systematically: the real files of sdk/tests/fixtures per family, every segmentation/padding boundary store length per handler format on an asset without and with a manifest (C07, C08), fragmented MP4 in every layout × base mode × tfra/saio version and the BMFF update-manifest branches on Builder-made original+update assets (C09), the offset fields of generated and fixture BMFF files through adjust_known_offsets_from with pivots at/next to every stored offset and size deltas at the u32/i64 boundaries against the Lean table model (C09), structurally mutated PNG/JPEG/GIF/JXL inputs for the box map (C12), and differential-only inputs outside the statement (two manifest containers, non-ASCII PNG chunk types); a case is non-trivial when every write/remove step succeeded on the implementation (offset-table cases: the fix-up succeeded on a non-empty table; mutated inputs: a box map was returned); distinct by (format, layout, op sequence)".to_string();
     let fams = families_for(prop);
     let n = if thorough { 6000 } else { 700 };
     crate::embed_lex2::replays(run, rng, prop);
+    crate::embed_frag::fixture_cases(run, prop, thorough);
+    if prop == "C07" || prop == "C08" {
+        boundary_cases(run, rng, prop, thorough);
+        two_manifest_cases(run, rng, prop);
+    }
+    if prop == "C07" {
+        crate::embed_frag::update_remove_cases(run, rng);
+    }
+    if prop == "C12" {
+        mutated_boxmap_cases(run, rng, thorough);
+    }
+    if prop == "C09" {
+        crate::embed_frag::adjust_table_cases(run, rng, thorough);
+        crate::embed_frag::update_layout_cases(run, rng, thorough);
+    }
     for i in 0..n {
         let mut r = rng.fork();
         let fam = fams[i % fams.len()];
@@ -584,4 +638,289 @@ pub fn one_case(run: &mut Run, prop: &'static str, asset: &Asset, ops: &[Op]) ->
     let mut cx = Ctx { run, prop, idx, tiff_legacy };
     check_steps(&mut cx, asset, &steps);
     idx
+}
+
+/// Store lengths at the segmentation / padding boundaries of each container, per handler
+/// format (RIFF has three), swept systematically (C07, C08) on an asset without and one with
+/// an existing manifest.
+pub fn boundary_lengths(fmt: &str) -> Vec<usize> {
+    match fmt {
+        // APP11 segments carry 64 000-byte pieces (+ repeated box header from the 2nd on)
+        "jpg" => vec![21, 28, 29, 63_991, 63_992, 63_993, 63_999, 64_000, 64_001, 65_535, 65_536, 127_999, 128_000, 128_001],
+        // RIFF chunks are padded to even length; 16-bit boundary
+        "wav" | "webp" | "avi" => vec![1, 2, 3, 4, 255, 256, 257, 65_535, 65_536, 65_537],
+        // GIF data sub-blocks hold 255 bytes
+        "gif" => vec![1, 2, 254, 255, 256, 509, 510, 511, 765, 65_025, 65_026],
+        // base64: 3-byte groups and padding
+        "svg" => vec![1, 2, 3, 4, 5, 6, 57, 58, 59, 255, 256, 257, 65_535, 65_536, 65_537],
+        // IFD entries hold up to 4 bytes inline; word alignment
+        "tif" => vec![5, 6, 7, 8, 255, 256, 257, 65_535, 65_536],
+        // syncsafe sizes (7 bits per byte)
+        "mp3" | "flac" => vec![8, 9, 60, 127, 128, 16_383, 16_384, 65_536],
+        // 32-bit box sizes; 38 is the bare superbox the BMFF writer refuses
+        "mp4" | "heic" => vec![39, 40, 255, 256, 65_535, 65_536],
+        "jxl" => vec![38, 39, 255, 256, 65_535, 65_536],
+        _ => vec![1, 2, 255, 256, 65_535, 65_536],
+    }
+}
+
+fn boundary_asset(fmt: &'static str, rng: &mut Rng, existing: Option<&Store>) -> Asset {
+    match fmt {
+        "wav" => gen_riff_kind(rng, existing, 0),
+        "webp" => gen_riff_kind(rng, existing, 1),
+        "avi" => gen_riff_kind(rng, existing, 2),
+        "c2pa" => gen_asset(Family::Sidecar, rng, existing),
+        "png" => gen_asset(Family::Png, rng, existing),
+        "jpg" => gen_asset(Family::Jpeg, rng, existing),
+        "gif" => gen_asset(Family::Gif, rng, existing),
+        "tif" => gen_asset(Family::Tiff, rng, existing),
+        "svg" => gen_asset(Family::Svg, rng, existing),
+        "mp3" => gen_asset(Family::Mp3, rng, existing),
+        "flac" => gen_asset(Family::Flac, rng, existing),
+        "jxl" => gen_asset(Family::Jxl, rng, existing),
+        "heic" => {
+            let p = crate::embed_heif::gen_params(rng);
+            crate::embed_heif::gen_heif(rng, existing, if existing.is_some() { 4 } else { 1 }, p)
+        }
+        _ => crate::embed_lex2::gen_mp4(rng, existing, if existing.is_some() { 4 } else { 1 }, false),
+    }
+}
+
+pub fn boundary_cases(run: &mut Run, rng: &mut Rng, prop: &'static str, thorough: bool) {
+    for fmt in ["c2pa", "png", "jpg", "gif", "wav", "webp", "avi", "mp4", "heic", "tif", "svg", "mp3", "flac", "jxl"] {
+        for len in boundary_lengths(fmt) {
+            for with in [false, true] {
+                if with && !thorough && len > 70_000 {
+                    continue;
+                }
+                let mut r = rng.fork();
+                let ex = gen_store(boundary_lengths(fmt)[0].max(64), 21);
+                let asset = boundary_asset(fmt, &mut r, if with { Some(&ex) } else { None });
+                let s1 = gen_store(len, 22);
+                let same = gen_store(len, 23);
+                let other = gen_store(*r.pick(&boundary_lengths(fmt)), 24);
+                let ops = if prop == "C07" {
+                    vec![Op::Write(s1), Op::Read, Op::Write(other), Op::Read, Op::Write(same), Op::Read, Op::Remove, Op::Read]
+                } else {
+                    vec![Op::Write(other), Op::Write(s1), Op::Loc, Op::Patch(same), Op::Loc, Op::Read]
+                };
+                one_case(run, prop, &asset, &ops);
+                run.count(&format!("boundary_{fmt}"));
+            }
+        }
+    }
+}
+
+/// Assets with TWO pre-existing manifest containers. They are outside the statement (a valid
+/// asset has at most one manifest store): no property oracle is applied. For the byte-exact
+/// formats the model/implementation differential runs (what the handler does on such input is
+/// part of the model); for the others the handler's behaviour is recorded in the evidence.
+pub fn two_manifest_cases(run: &mut Run, rng: &mut Rng, prop: &'static str) {
+    let s1 = gen_store(70, 31);
+    let s2 = gen_store(90, 32);
+    let new = gen_store(120, 33);
+    for k in 0..12 {
+        let mut r = rng.fork();
+        // PNG: a second caBX chunk right before IEND, or right after the first
+        let mut a = gen_png(&mut r, Some(&s1));
+        let Some(items) = lex_png(&a.bytes) else { continue };
+        let at = if k % 2 == 0 { items.iter().find(|i| i.tag == "IEND").map(|i| i.start) } else { items.iter().find(|i| i.manifest).map(|i| i.start + i.bytes.len()) };
+        let Some(at) = at else { continue };
+        let mut chunk = (s2.bytes.len() as u32).to_be_bytes().to_vec();
+        chunk.extend_from_slice(b"caBX");
+        chunk.extend_from_slice(&s2.bytes);
+        let crc = crc32(&chunk[4..]);
+        chunk.extend_from_slice(&crc.to_be_bytes());
+        a.bytes.splice(at..at, chunk);
+        a.desc.push_str("+2cai");
+        let ops: Vec<Op> = match k % 3 {
+            0 => vec![Op::Read, Op::Write(new.clone()), Op::Read, Op::Remove, Op::Read],
+            1 => vec![Op::Read, Op::Remove, Op::Read, Op::Remove, Op::Read, Op::Loc, Op::BoxMap],
+            _ => vec![Op::Loc, Op::BoxMap, Op::Write(new.clone()), Op::Loc, Op::BoxMap, Op::Read],
+        };
+        let steps = exec(&a, &ops);
+        record(run, prop, &a, &steps);
+        run.count("two_manifests_png_differential");
+        let seen: Vec<String> = steps.iter().filter(|s| matches!(s.op, Op::Read)).map(|s| s.reply.split(':').nth(1).unwrap_or("").chars().take(4).collect()).collect();
+        run.count(&format!("two_manifests_png_reads_{}", seen.join("_")));
+    }
+    // the Lean witness `C2pa.C07.pngTwoCai` (Props/C07.lean) replayed on the real handler
+    {
+        let hex = "89504e470d0a1a0a00000000494844520000000000000001636142580700000000000000016361425808000000000000000049454e4400000000";
+        let a = Asset { family: Family::Png, fmt: "png", bytes: crate::common::unhex(hex), desc: "png-witness-pngTwoCai+2cai".into(), existing: None };
+        let steps = exec(&a, &[Op::Read, Op::Write(lit_store(&[9])), Op::Read, Op::Remove, Op::Read, Op::BoxMap, Op::Loc]);
+        record(run, prop, &a, &steps);
+        run.count("two_manifests_png_witness_replay");
+    }
+    // PNG chunk types that are not ASCII letters (outside the PNG specification, so no property
+    // oracle): the handler decodes the 4 type bytes with `String::from_utf8` — well-formed
+    // multi-byte sequences are accepted, overlong / surrogate / truncated ones are an error.
+    // Differential against the byte-exact model on every op.
+    let names: [[u8; 4]; 8] = [
+        [0xC3, 0xA9, 0x41, 0x42], // "éAB"
+        [0x41, 0xE2, 0x82, 0xAC], // "A€"
+        [0xF0, 0x9F, 0x98, 0x80], // one 4-byte scalar
+        [0xC0, 0x80, 0x41, 0x42], // overlong
+        [0xED, 0xA0, 0x80, 0x41], // surrogate
+        [0xF4, 0x90, 0x80, 0x80], // > U+10FFFF
+        [0x41, 0x42, 0x43, 0xC3], // truncated
+        [0x80, 0x41, 0x42, 0x43], // stray continuation byte
+    ];
+    for (k, name) in names.iter().enumerate() {
+        let mut r = rng.fork();
+        let with = k % 2 == 1;
+        let mut a = gen_png(&mut r, if with { Some(&s1) } else { None });
+        let Some(items) = lex_png(&a.bytes) else { continue };
+        let Some(at) = items.iter().find(|i| i.tag == "IEND").map(|i| i.start) else { continue };
+        let data = r.bytes(5);
+        let mut chunk = (data.len() as u32).to_be_bytes().to_vec();
+        chunk.extend_from_slice(name);
+        chunk.extend_from_slice(&data);
+        let crc = crc32(&chunk[4..]);
+        chunk.extend_from_slice(&crc.to_be_bytes());
+        a.bytes.splice(at..at, chunk);
+        a.desc.push_str("+utf8name");
+        let steps = exec(&a, &[Op::BoxMap, Op::Read, Op::Write(new.clone()), Op::Read, Op::Loc, Op::BoxMap, Op::Remove, Op::Read]);
+        record(run, prop, &a, &steps);
+        run.count(&format!("png_non_ascii_chunk_type_{}", if steps[0].ok { "accepted" } else { "rejected" }));
+    }
+    // other containers: observation only
+    let obs = |run: &mut Run, fmt: &'static str, bytes: Vec<u8>| {
+        let r0 = op_read(fmt, &bytes);
+        let tag = |r: &ReadRes| match r {
+            ReadRes::Ok(v) if *v == s1.bytes => "first",
+            ReadRes::Ok(v) if *v == s2.bytes => "second",
+            ReadRes::Ok(v) if *v == new.bytes => "new",
+            ReadRes::Ok(_) => "other",
+            ReadRes::None => "none",
+            ReadRes::Many => "many",
+            ReadRes::Err(e) if is_panic(e) => "panic",
+            ReadRes::Err(_) => "err",
+        };
+        let w = op_write(fmt, &bytes, &new.bytes);
+        let rw = w.as_ref().map(|o| tag(&op_read(fmt, o)).to_string()).unwrap_or_else(|e| if is_panic(e) { "write-panic".into() } else { "write-err".into() });
+        let d = op_remove(fmt, &bytes);
+        let rd = d.as_ref().map(|o| tag(&op_read(fmt, o)).to_string()).unwrap_or_else(|e| if is_panic(e) { "remove-panic".into() } else { "remove-err".into() });
+        run.count(&format!("two_manifests_{fmt}_read_{}_afterwrite_{rw}_afterremove_{rd}", tag(&r0)));
+    };
+    let mut r = rng.fork();
+    // JPEG: two APP11 runs with different box instance numbers
+    let j = gen_jpeg(&mut r, Some(&s1));
+    if let Some(items) = lex_jpeg(&j.bytes) {
+        if let Some(m) = items.iter().filter(|i| i.manifest).last() {
+            let at = m.start + m.bytes.len();
+            let mut b = j.bytes.clone();
+            let extra: Vec<u8> = jpeg_c2pa_segments(&s2.bytes, [0x02, 0x12], 64000).concat();
+            b.splice(at..at, extra);
+            obs(run, "jpg", b);
+        }
+    }
+    let g = gen_gif(&mut r, Some(&s1));
+    if let Some(items) = lex_gif(&g.bytes) {
+        if let Some(m) = items.iter().find(|i| i.manifest) {
+            let at = m.start + m.bytes.len();
+            let mut b = g.bytes.clone();
+            b.splice(at..at, gif_c2pa_block(&s2.bytes));
+            obs(run, "gif", b);
+        }
+    }
+    let w = gen_riff_kind(&mut r, Some(&s1), 0);
+    {
+        let mut b = w.bytes.clone();
+        let extra = riff_chunk(b"C2PA", &s2.bytes);
+        let n = u32::from_le_bytes([b[4], b[5], b[6], b[7]]) as usize;
+        let end = (8 + n).min(b.len());
+        b.splice(end..end, extra.clone());
+        let n2 = (n + extra.len()) as u32;
+        b[4..8].copy_from_slice(&n2.to_le_bytes());
+        obs(run, "wav", b);
+    }
+    let m = crate::embed_lex2::gen_mp4(&mut r, Some(&s1), 3, false);
+    {
+        let mut b = m.bytes.clone();
+        b.extend_from_slice(&crate::embed_lex2::bmff_c2pa_box(&s2.bytes));
+        obs(run, "mp4", b);
+    }
+    let x = crate::embed_lex3::gen_jxl(&mut r, Some(&s1));
+    {
+        let mut b = x.bytes.clone();
+        if !x.desc.contains("size0") {
+            b.extend_from_slice(&s2.bytes);
+            obs(run, "jxl", b);
+        }
+    }
+}
+
+/// C12 on structurally mutated inputs: truncation, corrupted length fields, deleted ranges,
+/// duplicated items, overwritten bytes. `get_box_map` may refuse; a map it returns must be
+/// ordered, non-overlapping and inside the file.
+pub fn mutated_boxmap_cases(run: &mut Run, rng: &mut Rng, thorough: bool) {
+    let n = if thorough { 4000 } else { 600 };
+    let fams = [Family::Png, Family::Jpeg, Family::Gif, Family::Jxl];
+    for i in 0..n {
+        let mut r = rng.fork();
+        let fam = fams[i % fams.len()];
+        let ex = gen_store(40 + (i % 50), 41);
+        let with = r.chance(1, 2);
+        let mut a = gen_asset(fam, &mut r, if with { Some(&ex) } else { None });
+        let items = lex(fam, &a.bytes).unwrap_or_default();
+        let starts: Vec<usize> = items.iter().map(|i| i.start).collect();
+        let len_field = |r: &mut Rng, st: usize| -> usize {
+            st + match fam {
+                Family::Jpeg => 2 + r.below(2) as usize,
+                Family::Gif => r.below(16) as usize,
+                // PNG / JXL: the 32-bit length leads the chunk / box (JXL: or the largesize field)
+                _ => {
+                    if fam == Family::Jxl && r.chance(1, 4) {
+                        8 + r.below(8) as usize
+                    } else {
+                        r.below(4) as usize
+                    }
+                }
+            }
+        };
+        let kind = r.below(6);
+        match kind {
+            0 => {
+                let cut = r.below(a.bytes.len() as u64) as usize;
+                a.bytes.truncate(cut);
+            }
+            1 | 2 => {
+                if let Some(st) = starts.get(r.below(starts.len().max(1) as u64) as usize) {
+                    let pos = len_field(&mut r, *st);
+                    if pos < a.bytes.len() {
+                        a.bytes[pos] = *r.pick(&[0u8, 1, 2, 7, 8, 0x7f, 0xff, 0xfe, 0x40]);
+                    }
+                }
+            }
+            3 => {
+                let from = r.below(a.bytes.len() as u64) as usize;
+                let k = r.range(1, 40) as usize;
+                let to = (from + k).min(a.bytes.len());
+                a.bytes.drain(from..to);
+            }
+            4 => {
+                if let Some(it) = items.get(r.below(items.len().max(1) as u64) as usize) {
+                    let raw = a.bytes[it.start..(it.start + it.bytes.len()).min(a.bytes.len())].to_vec();
+                    let at = it.start;
+                    a.bytes.splice(at..at, raw);
+                }
+            }
+            _ => {
+                let pos = r.below(a.bytes.len() as u64) as usize;
+                a.bytes[pos] = r.below(0x80) as u8;
+            }
+        }
+        a.desc = format!("{}+MUTATED{kind}", a.desc.split('+').next().unwrap_or(""));
+        a.existing = None;
+        let steps = exec(&a, &[Op::BoxMap]);
+        // oracle-only: the byte-exact models cover well-formed inputs of their own generator
+        let idx = run.case(format!("C12 abs fmt={} init=- ops=b", a.fmt), "b".to_string());
+        run.count(&format!("mutated_kind{kind}_{}", a.fmt));
+        if steps[0].ok {
+            run.nontrivial(format!("mutated {} kind{kind} ok {i}", a.fmt));
+        }
+        let mut cx = Ctx { run, prop: "C12", idx, tiff_legacy: false };
+        check_box_map(&mut cx, &a, &a.bytes, &format!("[{}] mutated input", a.desc));
+    }
 }
